@@ -21,6 +21,9 @@ type Engine struct {
 	funcs     map[string]*FuncInfo
 	contracts map[string]*Contract
 	macros    map[string]*Macro
+	ghosts    map[string]*GhostDecl
+	globalFacts []GlobalFact
+	axioms      []GlobalFact
 	goarch    string
 	timeoutS  int
 	lemmaMu   sync.Mutex
@@ -28,7 +31,7 @@ type Engine struct {
 }
 
 func NewEngine(repo, goarch string, tags string) (*Engine, error) {
-	eng := &Engine{funcs: map[string]*FuncInfo{}, contracts: map[string]*Contract{}, macros: map[string]*Macro{}, goarch: goarch, timeoutS: 30, lemmaMemo: map[string]bool{}}
+	eng := &Engine{funcs: map[string]*FuncInfo{}, contracts: map[string]*Contract{}, macros: map[string]*Macro{}, ghosts: map[string]*GhostDecl{}, goarch: goarch, timeoutS: 30, lemmaMemo: map[string]bool{}}
 	env := append(os.Environ(), "GOFLAGS=-mod=mod", "GOPROXY=off", "GOSUMDB=off", "GOTOOLCHAIN=local")
 	if goarch != "" {
 		env = append(env, "GOARCH="+goarch)
@@ -165,7 +168,7 @@ func (ex *exec) globalObj(st *State, v *types.Var, pos token.Pos) *Obj {
 		// evaluate the constant composite literal in a scratch state
 		fi := &FuncInfo{Key: "init:" + v.Name(), Pkg: pkg}
 		ex.frames = append(ex.frames, &frame{fi: fi, inlined: true})
-		scratch := &State{vars: map[*types.Var]*Obj{}, heap: map[*Obj]Value{}, ghost: map[string]Value{}}
+		scratch := &State{vars: map[*types.Var]*Obj{}, heap: map[*Obj]Value{}, ghost: map[string]Value{}, gver: map[*Obj]int{}}
 		val = ex.evalExprT(scratch, init, v.Type())
 		ex.frames = ex.frames[:len(ex.frames)-1]
 		for k, x := range scratch.heap {
@@ -175,7 +178,7 @@ func (ex *exec) globalObj(st *State, v *types.Var, pos token.Pos) *Obj {
 			st.heap[k] = x
 		}
 	} else {
-		scratch := &State{vars: map[*types.Var]*Obj{}, heap: map[*Obj]Value{}, ghost: map[string]Value{}}
+		scratch := &State{vars: map[*types.Var]*Obj{}, heap: map[*Obj]Value{}, ghost: map[string]Value{}, gver: map[*Obj]int{}}
 		val = ex.freshValue(scratch, v.Type(), v.Pkg().Name()+"."+v.Name(), 0)
 		for k, x := range scratch.heap {
 			ex.globalInit[k] = x
@@ -306,9 +309,19 @@ func (ex *exec) taintCall(st *State, key string, fn *types.Func, recv Value, arg
 
 func (ex *exec) applyContract(st *State, ct *Contract, fn *types.Func, recv Value, args []Value, call *ast.CallExpr) Value {
 	sig := fn.Type().(*types.Signature)
+	if ex.mode == ModeInt {
+		if v, ok := ex.eng.contracts[ct.Key+"#int"]; ok {
+			ct = v // numeric view of a contract proved in bit-vector mode (bridging lemma listed as trusted)
+		}
+	}
 	ex.calledContracts[ct.Key] = true
 	if ct.Assume {
 		ex.assumedCalls[ct.Key] = true
+	}
+	for _, e := range ct.Ensures {
+		if e.Trusted {
+			ex.trustedClauses[ct.Key+"/"+e.Label+": "+e.Src] = true
+		}
 	}
 	names := map[string]Value{}
 	if sig.Recv() != nil {
@@ -382,12 +395,27 @@ func (ex *exec) applyContract(st *State, ct *Contract, fn *types.Func, recv Valu
 					break
 				}
 				if c != False {
+					// undecided: a pointer result that is either the given object or nil
+					if pv, ok := env.eval(ct.ReturnsIfVal[k]).(*Ptr); ok && len(ct.ReturnsIf) == 1 && ct.ReturnsElse != nil {
+						if o, ok := env.eval(ct.ReturnsElse).(*Opaque); ok && o.What == "nil" && pv.Obj != nil && pv.NilC == nil {
+							v = &Ptr{Obj: pv.Obj, Path: pv.Path, Span: pv.Span, NilC: Not(c)}
+							decided = true
+							break
+						}
+					}
 					ex.fail(call.Pos(), "call to %s: returns_if condition undecided at the call site; add a case split to the caller", ct.Key)
 				}
 			}
 			if !decided {
-				v = ex.freshValue(st, rv.Type(), fn.Name()+".result", 0)
-				markFresh(st, v)
+				if ct.ReturnsElse != nil {
+					v = env.eval(ct.ReturnsElse)
+					if o, ok := v.(*Opaque); ok && o.What == "nil" {
+						v = ex.zeroValue(rv.Type())
+					}
+				} else {
+					v = ex.freshValue(st, rv.Type(), fn.Name()+".result", 0)
+					markFresh(st, v)
+				}
 			}
 		} else {
 			nm := rv.Name()
@@ -409,8 +437,22 @@ func (ex *exec) applyContract(st *State, ct *Contract, fn *types.Func, recv Valu
 		}
 	}
 	aenv.names = names
+	prePC := append([]*Term{}, st.pc...)
 	for _, e := range ct.Ensures {
 		st.assume(aenv.toBool(aenv.eval(e.Expr)))
+	}
+	if len(ct.Ensures) > 0 && !st.infeasible() {
+		// vacuity guard: assuming the callee's postcondition must not make the path contradictory
+		o := &Oblig{Name: fmt.Sprintf("%s/cover:after-call:%s", ex.root.Key, ct.Key), Func: ex.root.Key, Kind: "cover", Label: "after-call", Hyps: append([]*Term{}, st.pc...), Goal: False, Pos: ex.pos(call.Pos()), PreHyps: prePC}
+		if ex.tag != "" {
+			o.Name += "@" + ex.tag
+		}
+		ex.nameN[o.Name]++
+		if ex.nameN[o.Name] > 1 {
+			o.Name = fmt.Sprintf("%s#%d", o.Name, ex.nameN[o.Name])
+		}
+		o.Opaque = ex.ct != nil && ex.ct.Opaque
+		ex.obligs = append(ex.obligs, o)
 	}
 	switch len(res) {
 	case 0:
@@ -441,6 +483,31 @@ func markFresh(st *State, v Value) {
 
 // havocSpecTarget havocs the location(s) denoted by an assigns expression.
 func (ex *exec) havocSpecTarget(st *State, env *specEnv, a ast.Expr, pos token.Pos) {
+	if id, ok := a.(*ast.Ident); ok {
+		if gd, ok := ex.eng.ghosts[id.Name]; ok && gd.Var {
+			st.ghost[id.Name] = Fresh("ghost."+id.Name, gd.Sort)
+			return
+		}
+	}
+	if c, ok := a.(*ast.CallExpr); ok {
+		if id, ok := c.Fun.(*ast.Ident); ok {
+			if gd, ok := ex.eng.ghosts[id.Name]; ok && !gd.Var {
+				if p, ok := env.eval(c.Args[0]).(*Ptr); ok && p.Obj != nil {
+					ex.bumpGhost(st, p.Obj)
+				}
+				return
+			}
+		}
+	}
+	defer func() {
+		// ghost fields of the written objects are no longer known
+		switch x := a.(type) {
+		case *ast.StarExpr:
+			if p, ok := env.eval(x.X).(*Ptr); ok && p.Obj != nil {
+				ex.bumpGhost(st, p.Obj)
+			}
+		}
+	}()
 	// slice range s[lo:hi] or whole slice s
 	switch x := a.(type) {
 	case *ast.StarExpr:
@@ -524,7 +591,7 @@ func (eng *Engine) VerifyFunc(key string) (rep *FuncReport) {
 		return
 	}
 	ex := &exec{eng: eng, root: fi, ct: ct, mode: ct.Mode, nameN: map[string]int{}, assumedCalls: map[string]bool{}, inlinedFns: map[string]bool{}, calledContracts: map[string]bool{},
-		globals: map[*types.Var]*Obj{}, globalInit: map[*Obj]Value{}}
+		globals: map[*types.Var]*Obj{}, globalInit: map[*Obj]Value{}, usedGlobalFacts: map[string]bool{}, trustedClauses: map[string]bool{}}
 	defer func() {
 		if r := recover(); r != nil {
 			if u, ok := r.(unsupported); ok {
@@ -550,6 +617,12 @@ func (eng *Engine) VerifyFunc(key string) (rep *FuncReport) {
 	}
 	for k := range ex.assumedCalls {
 		rep.Assumed = append(rep.Assumed, k)
+	}
+	for k := range ex.trustedClauses {
+		rep.Assumed = append(rep.Assumed, "trusted clause "+k)
+	}
+	for k := range ex.usedGlobalFacts {
+		rep.Assumed = append(rep.Assumed, "package-initialisation fact / axiom "+k)
 	}
 	sort.Strings(rep.Inlined)
 	sort.Strings(rep.UsedContracts)
@@ -633,7 +706,7 @@ func (ex *exec) aliasCases(fi *FuncInfo) []aliasCase {
 func (ex *exec) runCase(fi *FuncInfo, ct *Contract, ac aliasCase) {
 	sig := fi.Obj.Type().(*types.Signature)
 	info := fi.Pkg.TypesInfo
-	st := &State{vars: map[*types.Var]*Obj{}, heap: map[*Obj]Value{}, ghost: map[string]Value{}}
+	st := &State{vars: map[*types.Var]*Obj{}, heap: map[*Obj]Value{}, ghost: map[string]Value{}, gver: map[*Obj]int{}}
 	fr := &frame{fi: fi, params: map[string]Value{}}
 	ex.frames = []*frame{fr}
 	vals := map[string]Value{}
@@ -664,6 +737,32 @@ func (ex *exec) runCase(fi *FuncInfo, ct *Contract, ac aliasCase) {
 	fr.results = ex.declareResults(st, fi)
 	for _, g := range ex.globalFacts {
 		st.assume(g)
+	}
+	for _, gf := range ex.eng.globalFacts {
+		if gf.Pkg != fi.Pkg.Name {
+			continue
+		}
+		env := ex.newSpecEnv(st, fr, nil)
+		env.assume = true
+		st.assume(env.toBool(env.eval(gf.Clause.Expr)))
+		ex.usedGlobalFacts[gf.Clause.Label] = true
+	}
+	if ct.Mode == ModeInt {
+		for _, ax := range ex.eng.axioms {
+			use := false
+			for _, u := range ct.UseAxioms {
+				if u == ax.Clause.Label {
+					use = true
+				}
+			}
+			if !use {
+				continue
+			}
+			env := ex.newSpecEnv(st, fr, nil)
+			env.assume = true
+			st.assume(env.toBool(env.eval(ax.Clause.Expr)))
+			ex.usedGlobalFacts["axiom "+ax.Clause.Label] = true
+		}
 	}
 	for _, r := range ct.Requires {
 		env := ex.newSpecEnv(st, fr, nil)
@@ -763,6 +862,10 @@ func (ex *exec) checkPost(o *Outcome, fi *FuncInfo, ct *Contract, fr *frame) {
 	}
 	proved := map[string]*Term{}
 	for _, e := range ct.Ensures {
+		if e.Trusted {
+			ex.trustedClauses[ct.Key+"/"+e.Label+": "+e.Src] = true
+			continue
+		}
 		env := ex.newSpecEnv(st, fr, extra)
 		env.witness = ct.Witness
 		g := env.toBool(env.eval(e.Expr))
@@ -812,7 +915,11 @@ func (ex *exec) checkPost(o *Outcome, fi *FuncInfo, ct *Contract, fr *frame) {
 		case *Ptr:
 			fresh = BoolC(r.Obj == nil || r.Obj.fresh)
 		}
-		ex.oblige(st.clone(), "post", "returns_fresh", Or(Or(cs...), fresh), o.pos)
+		if ct.ReturnsElse != nil {
+			want := env.eval(ct.ReturnsElse)
+			fresh = env.valuesEqualSpec(extra["result"], want)
+		}
+		ex.oblige(st.clone(), "post", "returns_else", Or(Or(cs...), fresh), o.pos)
 	}
 	ex.checkFrame(st, fi, ct, fr, extra, o.pos)
 }
@@ -860,12 +967,20 @@ func (ex *exec) checkFrame(st *State, fi *FuncInfo, ct *Contract, fr *frame, ext
 	for o := range fr.entry.heap {
 		objs = append(objs, o)
 	}
+	for o := range ex.globalInit {
+		if _, ok := fr.entry.heap[o]; !ok {
+			objs = append(objs, o)
+		}
+	}
 	sort.Slice(objs, func(i, j int) bool { return objs[i].id < objs[j].id })
 	for _, o := range objs {
 		if o.fresh {
 			continue
 		}
-		before := fr.entry.heap[o]
+		before, okb := fr.entry.heap[o]
+		if !okb {
+			before = ex.globalInit[o]
+		}
 		after, ok := st.heap[o]
 		if !ok || valueIdentical(before, after) {
 			continue
@@ -1014,6 +1129,16 @@ func (eng *Engine) SolveAll(obs []*Oblig) {
 				case Proved:
 					o.Res.Verdict = Refuted
 					o.Res.Detail = "vacuous: assumptions are contradictory"
+					if o.PreHyps != nil {
+						// contradictory only if the path was still satisfiable before the call
+						pre := Solve(BuildQuery(o.PreHyps, False, o.Opaque), 5, false)
+						if pre.Verdict == Proved {
+							o.Res.Verdict = Proved
+							o.Res.Detail = "path already infeasible before the call"
+						} else {
+							o.Res.Detail = "vacuous: the callee's postcondition contradicts what is known at the call (contract inconsistency)"
+						}
+					}
 				default:
 					o.Res.Verdict = Proved
 					o.Res.Detail = "cover inconclusive (solver returned unknown; not vacuous as far as known)"
@@ -1145,4 +1270,14 @@ func sliceHyps(hyps []*Term, goal *Term, depth int) []*Term {
 		}
 	}
 	return out
+}
+
+func (ex *exec) bumpGhost(st *State, o *Obj) {
+	st.gver[o]++
+	pre := "(" + o.String()
+	for k := range st.ghost {
+		if strings.Contains(k, pre) {
+			delete(st.ghost, k)
+		}
+	}
 }
